@@ -251,7 +251,7 @@ pub fn run(report: &Report, budget: &Budget) {
     let (cdone, ctotal) = run_crash_rider(report, budget, "C14");
     // (b) history graph
     let depth = if thorough { 3 } else { 2 };
-    let hb = Budget::new(if thorough { 500 } else { 15 });
+    let hb = crate::util::sub_budget(if thorough { 500 } else { 15 });
     let st = hist::explore(report, &hb, "C14", depth, thorough, false, thorough, &hist_oracle, None, None);
     hist::write_stats(report, &st, depth);
     // (a) re-backup of every C01 input
